@@ -64,8 +64,8 @@ func fieldGens() []fieldGen {
 			return reflect.ValueOf(v), model.Bool(v)
 		}},
 		{"time.Time", reflect.TypeOf(time.Time{}), true, func(r *rand.Rand) (reflect.Value, model.Value) {
-			s := int64(r.Intn(2000000000)) - 100000
-			return reflect.ValueOf(time.Unix(s, int64(r.Intn(1000)))), model.Int(s)
+			s, ns := hostInstant(r)
+			return reflect.ValueOf(time.Unix(s, ns)), model.Int(s)
 		}},
 		{"[]string", reflect.TypeOf([]string{}), true, func(r *rand.Rand) (reflect.Value, model.Value) {
 			n := []int{0, 0, 1, 3}[r.Intn(4)]
@@ -125,8 +125,8 @@ func fieldGens() []fieldGen {
 			s := make([]time.Time, n)
 			var m []model.Value
 			for i := range s {
-				sec := int64(r.Intn(1000000))
-				s[i] = time.Unix(sec, 0)
+				sec, ns := hostInstant(r)
+				s[i] = time.Unix(sec, ns)
 				m = append(m, model.Int(sec))
 			}
 			return reflect.ValueOf(s), model.Value{K: model.KArr, A: m}
@@ -440,4 +440,24 @@ func cyclicStruct() *ring {
 	r.Kids = []*ring{r}
 	r.Any = r
 	return r
+}
+
+// hostInstant draws an instant a host might hold in a time.Time: around now, around the
+// epoch (before it, with a fraction of a second), and anywhere in the years 1 to 9999. A
+// script sees the whole seconds since the epoch, rounded down (time.Time.Unix).
+func hostInstant(r *rand.Rand) (sec, nsec int64) {
+	nsec = []int64{0, 0, 1, 500000000, 999999999, int64(r.Intn(1000000000))}[r.Intn(6)]
+	switch r.Intn(6) {
+	case 0:
+		sec = int64(r.Intn(2000000000)) - 100000
+	case 1:
+		sec = -int64(r.Intn(100000)) - 1 // shortly before 1970
+	case 2:
+		sec = -62135596800 + r.Int63n(253402300799+62135596800) // years 1 .. 9999
+	case 3:
+		sec = []int64{-62135596800, -11644473600, -9223372037, -9223372036, 9223372036, 9223372037, 253402300799, -1, 0}[r.Intn(9)]
+	default:
+		sec = int64(r.Intn(2000000000))
+	}
+	return sec, nsec
 }
